@@ -19,6 +19,12 @@ set_option linter.unusedSectionVars false
 namespace Hyp.C08
 open Hyp Hyp.Score Hyp.SetOps
 
+-- Every theorem below holds for ANY BM25 parameters (`Score.Bm25`: the `K1`, `B` the scoring loop reads and
+-- the `K1` that `query_weight` reads – class attributes a subclass or an instance of `OkapiIndex` may
+-- override); `c08_okapi_formula_default` / `c08_score_loop_default` spell the formulas out for the
+-- values the property names, `K1 = 1.2`, `B = 0.75` (`Bm25.default`, also the constants of okascore.c).
+variable [Bm25 ℝ]
+
 /-- After every history the model's table is the specification's table, with distinct docids. -/
 theorem c08_table_of_history (ops : List Op) :
     (run ops).T = ScoreSpec.tableOf ops ∧ AMap.WF (ScoreSpec.tableOf ops) := by
@@ -96,15 +102,15 @@ theorem c08_history_independent (k : Kind) (ops₁ ops₂ : List Op)
 
 /-! ### the formulas, spelled out over ℝ -/
 
-/-- Okapi: `score(D,Q) = Σ_{t∈Q, t in D} f·(k1+1)/(f + k1·((1−b) + b·len(D)/mean)) · ln(1+N/n_t)`,
-`k1 = 1.2`, `b = 0.75`; a document without a query word has no score. -/
+/-- Okapi: `score(D,Q) = Σ_{t∈Q, t in D} f·(k1+1)/(f + k1·((1−b) + b·len(D)/mean)) · ln(1+N/n_t)` for the
+index's parameters `k1`, `b`; a document without a query word has no score. -/
 theorem c08_okapi_formula (T : ScoreSpec.Table) (terms : List Nat) (d : Int) :
     (ScoreSpec.score .okapi T terms d : Option ℝ) =
       (AMap.get T d).bind (fun ws =>
         let Q := terms.filter (fun t => ws.contains t)
         if Q = [] then none else some ((Q.map (fun t =>
-          (ws.count t : ℝ) * (1.2 + 1) /
-            ((ws.count t : ℝ) + 1.2 * ((1 - 0.75) + 0.75 * (ws.length : ℝ) /
+          (ws.count t : ℝ) * (Bm25.k1 + 1) /
+            ((ws.count t : ℝ) + Bm25.k1 * ((1 - Bm25.b) + Bm25.b * (ws.length : ℝ) /
               ((ScoreSpec.totalLen T : ℝ) / (ScoreSpec.N T : ℝ)))) *
           Real.log (1 + (ScoreSpec.N T : ℝ) / (ScoreSpec.df T t : ℝ)))).sum)) := by
   rw [score_unfold]
@@ -119,7 +125,23 @@ theorem c08_okapi_formula (T : ScoreSpec.Table) (terms : List Nat) (d : Int) :
     apply List.map_congr_left
     intro t _
     simp only [specTerm, ScoreSpec.okapiTF, ScoreSpec.idf, ScoreSpec.meanLen, ScoreSpec.k1, ScoreSpec.b,
-      Scalar.nat_real, Scalar.log_real]
+      Scalar.nat_real, Scalar.log_real, Nat.cast_one]
+
+/-- … with the documented default parameters: `k1 = 1.2`, `b = 0.75`. -/
+theorem c08_okapi_formula_default (T : ScoreSpec.Table) (terms : List Nat) (d : Int) :
+    (@ScoreSpec.score ℝ _ Bm25.default .okapi T terms d : Option ℝ) =
+      (AMap.get T d).bind (fun ws =>
+        let Q := terms.filter (fun t => ws.contains t)
+        if Q = [] then none else some ((Q.map (fun t =>
+          (ws.count t : ℝ) * (1.2 + 1) /
+            ((ws.count t : ℝ) + 1.2 * ((1 - 0.75) + 0.75 * (ws.length : ℝ) /
+              ((ScoreSpec.totalLen T : ℝ) / (ScoreSpec.N T : ℝ)))) *
+          Real.log (1 + (ScoreSpec.N T : ℝ) / (ScoreSpec.df T t : ℝ)))).sum)) := by
+  rw [@c08_okapi_formula Bm25.default]
+  cases AMap.get T d with
+  | none => rfl
+  | some ws =>
+    simp only [Option.bind_some, Bm25.default_k1, Bm25.default_b, Scalar.nat_real]
     norm_num
 
 /-- cosine: `score(D,Q) = Σ_{t∈Q, t in D} (1+ln f)/W(D) · ln(1+N/n_t)`, `W(D) = √Σ_{t in D}(1+ln f)²`. -/
@@ -147,18 +169,30 @@ theorem c08_cosine_formula (T : ScoreSpec.Table) (terms : List Nat) (d : Int) :
     rw [foldl_add_eq]
     simp
 
-/-- the inner scoring loop (the C function `okascore.score` and the Python loop it replaces):
-every `(docid, f)` item gets `f·2.2/(f + 1.2·(0.25 + 0.75·len/mean)) · idf`. -/
+/-- the inner scoring loop (the Python loop; with the default parameters also the C function
+`okascore.score`): every `(docid, f)` item gets `f·(k1+1)/(f + k1·((1−b) + b·len/mean)) · idf`. -/
 theorem c08_score_loop (d2f : List (Int × Nat)) (d2len : Int → Nat) (idfv mean : ℝ) (d : Int) :
     AMap.get (scoreLoop d2f d2len idfv mean) d =
       (AMap.get d2f d).map (fun f =>
-        (f : ℝ) * (1.2 + 1) / ((f : ℝ) + 1.2 * ((1 - 0.75) + 0.75 * (d2len d : ℝ) / mean)) * idfv) := by
+        (f : ℝ) * (Bm25.k1 + 1) / ((f : ℝ) + Bm25.k1 * ((1 - Bm25.b) + Bm25.b * (d2len d : ℝ) / mean)) * idfv) := by
   unfold scoreLoop
   rw [get_map_val]
   cases AMap.get d2f d with
   | none => rfl
   | some f =>
-    simp only [Option.map_some, okapiTf, Score.k1, Score.b, Scalar.nat_real]
+    simp only [Option.map_some, okapiTf, Score.k1, Score.b, Scalar.nat_real, Nat.cast_one]
+    rfl
+
+/-- … with the constants of okascore.c: `f·2.2/(f + 1.2·(0.25 + 0.75·len/mean)) · idf`. -/
+theorem c08_score_loop_default (d2f : List (Int × Nat)) (d2len : Int → Nat) (idfv mean : ℝ) (d : Int) :
+    AMap.get (@scoreLoop ℝ _ Bm25.default d2f d2len idfv mean) d =
+      (AMap.get d2f d).map (fun f =>
+        (f : ℝ) * (1.2 + 1) / ((f : ℝ) + 1.2 * ((1 - 0.75) + 0.75 * (d2len d : ℝ) / mean)) * idfv) := by
+  rw [@c08_score_loop Bm25.default]
+  cases AMap.get d2f d with
+  | none => rfl
+  | some f =>
+    simp only [Option.map_some, Bm25.default_k1, Bm25.default_b, Scalar.nat_real]
     norm_num
 
 /-! ### non-vacuity -/
@@ -170,21 +204,34 @@ example : (run [.index 1 [1, 1, 2], .index 2 [1, 3, 3, 3, 3], .reindex 1 [1, 2, 
 example : ScoreSpec.tableOf [.index 1 [1, 1, 2], .index 2 [1, 3, 3, 3, 3], .reindex 1 [1, 2, 2, 2], .index 2 [3],
     .unindex 7, .reindex 9 [1], .index 3 []] = [(3, []), (2, [3]), (1, [1, 2, 2, 2])] := by decide
 
-/-- a concrete score: two documents, query word 1 occurs twice in document 1 (tf > 1, len ≠ mean) -/
-example : ∃ r, (search .okapi (run [.index 1 [1, 1, 2], .index 2 [1, 3, 3, 3, 3]]) [1] : Option (Res ℝ)) = some (.ok r) ∧
+/-- a concrete score with the default parameters: two documents, query word 1 occurs twice in document 1
+(tf > 1, len ≠ mean) -/
+example : ∃ r, (@search ℝ _ Bm25.default .okapi (run [.index 1 [1, 1, 2], .index 2 [1, 3, 3, 3, 3]]) [1] : Option (Res ℝ)) = some (.ok r) ∧
     AMap.get r 1 = some (2 * (1.2 + 1) / (2 + 1.2 * ((1 - 0.75) + 0.75 * 3 / (8 / 2))) * Real.log (1 + 2 / 2)) ∧
     AMap.get r 3 = none := by
-  obtain ⟨r, hr, hg⟩ := c08_search .okapi [.index 1 [1, 1, 2], .index 2 [1, 3, 3, 3, 3]] [1] (by simp)
+  obtain ⟨r, hr, hg⟩ := @c08_search Bm25.default .okapi [.index 1 [1, 1, 2], .index 2 [1, 3, 3, 3, 3]] [1] (by simp)
   refine ⟨r, hr, ?_, ?_⟩
-  · rw [hg 1, c08_okapi_formula]
+  · rw [hg 1, c08_okapi_formula_default]
     have : ScoreSpec.tableOf [.index 1 [1, 1, 2], .index 2 [1, 3, 3, 3, 3]] = [(2, [1, 3, 3, 3, 3]), (1, [1, 1, 2])] := by
       decide
     rw [this]
     simp [AMap.get, ScoreSpec.totalLen, ScoreSpec.N, ScoreSpec.df]
-  · rw [hg 3, c08_okapi_formula]
+  · rw [hg 3, c08_okapi_formula_default]
     have : ScoreSpec.tableOf [.index 1 [1, 1, 2], .index 2 [1, 3, 3, 3, 3]] = [(2, [1, 3, 3, 3, 3]), (1, [1, 1, 2])] := by
       decide
     rw [this]
     simp [AMap.get]
+
+/-- … and for a tuned index (`K1 = 2`, `B = 0.5` on a subclass or the instance, pure-Python loop): the same
+document scores `2·3/(2 + 2·(0.5 + 0.5·3/4)) · ln 2` -/
+example : ∃ r, (@search ℝ _ ⟨2, 0.5, 2⟩ .okapi (run [.index 1 [1, 1, 2], .index 2 [1, 3, 3, 3, 3]]) [1] : Option (Res ℝ)) = some (.ok r) ∧
+    AMap.get r 1 = some (2 * (2 + 1) / (2 + 2 * ((1 - 0.5) + 0.5 * 3 / (8 / 2))) * Real.log (1 + 2 / 2)) := by
+  obtain ⟨r, hr, hg⟩ := @c08_search ⟨2, 0.5, 2⟩ .okapi [.index 1 [1, 1, 2], .index 2 [1, 3, 3, 3, 3]] [1] (by simp)
+  refine ⟨r, hr, ?_⟩
+  rw [hg 1, @c08_okapi_formula ⟨2, 0.5, 2⟩]
+  have : ScoreSpec.tableOf [.index 1 [1, 1, 2], .index 2 [1, 3, 3, 3, 3]] = [(2, [1, 3, 3, 3, 3]), (1, [1, 1, 2])] := by
+    decide
+  rw [this]
+  simp [AMap.get, ScoreSpec.totalLen, ScoreSpec.N, ScoreSpec.df]
 
 end Hyp.C08
